@@ -16,7 +16,8 @@
  *     pre <suffix|-> <id>:<len> ...   rot only, before open: pre-existing file with these lines
  *     open <max_bytes>                rot : muggle_log_file_rotate_handler_init
  *     open <clock>                    trot: muggle_log_file_time_rot_handler_init with time() = clock
- *     w <id> <len>                    rot : one message whose formatted line has <len> bytes
+ *     w <id> <len>                    rot : one message whose formatted line WANTS <len> bytes (any
+ *                                           length: the handler truncates at MUGGLE_LOG_MSG_MAX_LEN)
  *     w <id> <len> <ts> <clock>       trot: message with ts.tv_sec = ts (0 = none), time() = clock
  *     restart <max_bytes | clock>     destroy + init
  *     civil <sec> / lcivil <sec>      gmtime_r / localtime_r (compared with the model's calendar)
@@ -176,7 +177,7 @@ static void case_end(void)
 
 /* payload such that the formatted line has exactly `len` bytes (when len is
  * at least the length of head + prefix + newline) */
-static char g_payload[8192];
+static char g_payload[70000];
 static void make_payload(const char *head, long len)
 {
 	long fixed = (g_raw ? 0 : (long)strlen(SIMPLE_PREFIX)) + 1;
